@@ -15,7 +15,7 @@ item by item (floats by bits) with no error. Non-trivial: a master with >= 1 chi
 
 pub const ASSUMPTIONS: &[&str] = &[
     "explicit widths are drawn from those that can hold the size (the all-ones value is the reserved 'unknown'); too-small widths are C19/C09's business",
-    "excluded by construction and counted: unknown size on a master whose declared path has a placeholder; a global element directly after an unknown-size master (RFC 8794 6.2: ambiguous, C07 states the same exclusion); unknown size together with raw tags",
+    "excluded by construction and counted: unknown size on a master whose declared path has a placeholder when another element follows it at its own level or when something inside it would close it by some reading of the rule (an element of the identical path or of an ancestor's type) — elsewhere such masters do get unknown sizes; a global element directly after an unknown-size master (RFC 8794 6.2: ambiguous, C07 states the same exclusion); unknown size together with raw tags",
     "the expected sequence comes from the generator, not from the library",
 ];
 
@@ -196,9 +196,7 @@ pub const STAGES: &[Stage] = &[Stage { name: "roundtrip", f: stage_main }, Stage
 
 pub fn run(rc: &mut RunCtx) {
     rc.run_pt(STAGES[0], rc.pick(640_000, 3_000_000), (96, 640));
-    if !rc.quick() {
-        rc.run_pt(STAGES[1], 1_500, (96, 400));
-    }
+    rc.run_pt(STAGES[1], rc.pick(400, 1_500), (96, 400));
     for l in ["unknown_size", "boundary_len", "explicit_width", "has_full", "raw_tags", "spec_macro_derived", "depth3plus", "global_element", "reserved_width_probe", "leaves_through_write_raw"] {
         rc.require_label("roundtrip", l, 10_000);
     }
